@@ -101,6 +101,22 @@ def _entry_size_read(fa: FA, cm, v, at_stmt, kx):
             return None
         v, nodes = ds[0].value, [ds[0].node]
         hops += 1
+    if isinstance(v, ast.IfExp):
+        # `self.map[k].obj_size if k in self.map else 0`: the recorded size when there is an entry, nothing otherwise
+        zero = lambda x: isinstance(x, ast.Constant) and x.value == 0 and x.value is not False
+        try:
+            lits = fa._atoms(v.test, nodes[0], True)
+        except AnalysisError:
+            return None
+        if len(lits) != 1:
+            return None
+        (txt, pol) = lits[0]
+        if txt not in ("%s in self.%s" % (kx, cm.map), "%s in self.%s.keys()" % (kx, cm.map)):
+            return None
+        read, other = (v.body, v.orelse) if pol else (v.orelse, v.body)
+        if not zero(other) or isinstance(read, ast.IfExp):
+            return None
+        v = read
     if not (isinstance(v, ast.Attribute) and v.attr == "obj_size"):
         return None
     base = v.value
@@ -131,10 +147,12 @@ def _entry_size_read(fa: FA, cm, v, at_stmt, kx):
     return read_nodes
 
 
-def _deletion_balanced(fa: FA, cm, st, kx):
-    """`del self.map[k]` is paired with exactly one `counter -= <size recorded in the entry of k>` on every path
-    through it, and that size is read out of the map before the entry is gone.  -> (ok, why)"""
+def _deletion_balanced(fa: FA, cm, st, kx, key_text=None):
+    """`del self.map[k]` (or a `self.map.pop(k ...)` whose value is not used) is paired with exactly one
+    `counter -= <size recorded in the entry of k>` on every path through it, and that size is read out of the map before
+    the entry is gone.  -> (ok, why)"""
     blk = _block_of(fa, st)
+    key_text = key_text if key_text is not None else A.norm(st.targets[0].slice)
     augs = [s2 for s2 in fa.stmts(ast.AugAssign) if isinstance(s2.op, ast.Sub) and self_attr(s2.target, cm.counter)]
     if not augs:
         return False, "no `%s -= <entry>.obj_size` beside the deletion" % cm.counter
@@ -144,7 +162,7 @@ def _deletion_balanced(fa: FA, cm, st, kx):
         rn = _entry_size_read(fa, cm, s2.value, s2, kx)
         if rn is None:
             if s2 in blk or len(augs) == 1:
-                why = "the subtracted size is not read from %s[%s]" % (cm.map, A.norm(st.targets[0].slice)) \
+                why = "the subtracted size is not read from %s[%s]" % (cm.map, key_text) \
                     if isinstance(s2.value, ast.Attribute) and s2.value.attr == "obj_size" else "the subtracted amount is not the entry's obj_size"
             continue
         decs.append(s2)
@@ -213,8 +231,10 @@ def _size_flow(fa: FA, cm, st, kind):
         ds = [d for i in fa.nodes(s2) for d in fa.df.reaching(i, key[0])]
         if not any(d.node in carriers[key] for d in ds):
             continue
-        # what else may be subtracted there: nothing for an entry; for a size, only a literal 0 (the "nothing was resident" case)
-        foreign = [d for d in ds if d.node not in carriers[key] and not (key[1] == "size" and zero_def(d))]
+        # what else may reach the subtraction: for an entry, only None (nothing was resident; reading its size would fail, not
+        # mis-account); for a size, only a literal 0
+        foreign = [d for d in ds if d.node not in carriers[key] and not (key[1] == "size" and zero_def(d))
+                   and not (key[1] == "entry" and d.kind == "assign" and d.value is not None and A.is_none(d.value))]
         if foreign:
             continue
         subs.append(s2)
@@ -300,11 +320,19 @@ def check_accounting(ck, cm: CacheModel):
                     edge_ok = branch_filter(fa, lambda t_, p_, popx=popx, ename=ename: (p_ and t_ in (popx + " is None", str(ename) + " is None"))
                                             or (not p_ and t_ in (popx, ename)))
                     subn = fa.nodes_all(subs)
+                    # (a pop that raises has taken nothing out: the exception edge of the pop statement itself is not a path "after the pop")
+                    popn = set(fa.nodes(st))
+                    done = lambda s_, d_, l_: not (s_ in popn and l_ == "exc")
+                    edge_ok = both(edge_ok, done)
                     ok = bool(subs) and all(fa.cfg.exit not in fa.cfg.reach([i], removed=subn, edge_ok=edge_ok, include_start=False) for i in fa.nodes(st))
-                    if ok and any(o in fa.cfg.reach(fa.nodes(st), removed=subn, include_start=False) for o in others):
+                    if ok and any(o in fa.cfg.reach([i], removed=subn, edge_ok=done, include_start=False) for i in popn for o in others):
                         ok, why = False, "the local that carries the popped entry's size is overwritten before it is subtracted from %s" % cm.counter
                     if ok and not at_most_once(fa, subn):
                         ok, why = False, "the popped entry's size is subtracted more than once"
+                elif isinstance(st, ast.Expr) and st.value is c and c.args:
+                    # the popped value is dropped: the size was read out of the map beforehand (as for `del self.map[k]`)
+                    ok, why2 = _deletion_balanced(fa, cm, st, k, A.norm(c.args[0]))
+                    why = why2 or why
                 ck.ob(R, fa.key(st, "pop-map"), ok, "pop() balanced by counter decrement" if ok else why, fa.where(st))
                 rem = [x for x in fa.calls("remove") if self_attr(A.call_recv(x), cm.queue) and x.args and _xn(fa, x.args[0], x) == k]
                 # the queue entry goes whenever the key may be queued, also when it was not resident: a path may skip
@@ -746,8 +774,9 @@ class BudgetTests:
             if n.kind != "for" or n.ast is None:
                 continue
             it = n.ast.iter
-            if not (isinstance(it, ast.Call) and isinstance(it.func, ast.Name) and it.func.id == "range" and len(it.args) == 1 and not it.keywords
-                    and self._is_queue_len(it.args[0], n.id)):
+            snapshot_var = queue_snapshot_loop_var(cm, n.ast)
+            if snapshot_var is None and not (isinstance(it, ast.Call) and isinstance(it.func, ast.Name) and it.func.id == "range" and len(it.args) == 1
+                                              and not it.keywords and self._is_queue_len(it.args[0], n.id)):
                 continue
             starts = [d for (d, l) in cfg.succ[n.id] if l == "T"]
             region = {i for i in cfg.reach(starts, removed=[n.id]) if n.id in cfg.reach([i])}  # the loop body: can come round again
@@ -764,12 +793,17 @@ class BudgetTests:
                         continue
                     if self_attr(A.call_recv(x), cm.queue):
                         if A.call_attr(x) in ("popleft", "pop", "remove") and fa.unconditional(x):
-                            takers.add(i)
+                            if snapshot_var is None:
+                                takers.add(i)
                         elif A.call_attr(x) not in ("popleft", "pop", "remove", "count", "index", "copy", "__len__", "__contains__"):
                             spoiled = True
                     elif cm.is_self_call(x, cm.evict) and x.args and fa.unconditional(x):
                         a0 = safe_expand(fa, x.args[0], x)
-                        if isinstance(a0, ast.Subscript) and self_attr(a0.value, cm.queue):
+                        if snapshot_var is not None:
+                            # a walk over a copy of the queue: the loop runs out with an empty queue when every key visited is evicted
+                            if isinstance(a0, ast.Name) and a0.id == snapshot_var and _only_loop_def(fa, a0, i, n.ast):
+                                takers.add(i)
+                        elif isinstance(a0, ast.Subscript) and self_attr(a0.value, cm.queue):
                             takers.add(i)  # the evict role takes the evicted key out of the queue (C06.R1 del-queue)
                     elif isinstance(x.func, ast.Attribute) and isinstance(x.func.value, ast.Name) and x.func.value.id == "self" \
                             and not cm.is_self_call(x, cm.evict):
@@ -806,6 +840,25 @@ class BudgetTests:
                     if all(x in ("IndexError", "LookupError") for x in names):
                         out.add((n.id, "exc"))
         return out
+
+
+def queue_snapshot_loop_var(cm, loop):
+    """`for v in list(self.queue):` / tuple(...) / deque(...) / self.queue.copy() -- a walk over a copy of the recency queue, oldest
+    key first.  -> the loop variable's name, or None"""
+    if not isinstance(loop, ast.For) or not isinstance(loop.target, ast.Name):
+        return None
+    it = loop.iter
+    if isinstance(it, ast.Call) and isinstance(it.func, ast.Name) and it.func.id in ("list", "tuple", "deque") and len(it.args) == 1 and not it.keywords \
+            and self_attr(it.args[0], cm.queue):
+        return loop.target.id
+    if isinstance(it, ast.Call) and A.call_attr(it) == "copy" and not it.args and self_attr(A.call_recv(it), cm.queue):
+        return loop.target.id
+    return None
+
+
+def _only_loop_def(fa: FA, name, nid, loop) -> bool:
+    ds = fa.df.reaching(nid, name.id)
+    return len(ds) == 1 and ds[0].kind == "for" and ds[0].stmt is loop
 
 
 def _without(edges):
@@ -883,6 +936,13 @@ def _check_budget_site(ck, cm, R, fa, ins):
             elif isinstance(a0, ast.Call) and isinstance(a0.func, ast.Name) and a0.func.id == "next" and len(a0.args) == 1 \
                     and isinstance(a0.args[0], ast.Call) and isinstance(a0.args[0].func, ast.Name) and a0.args[0].func.id == "iter" \
                     and len(a0.args[0].args) == 1 and self_attr(a0.args[0].args[0], cm.queue):
+                left.append(c)
+            elif isinstance(a0, ast.Name) and isinstance(wst, ast.For) and queue_snapshot_loop_var(cm, wst) == a0.id \
+                    and all(_only_loop_def(fa, a0, i, wst) for i in fa.nodes(c)) and (h0 := [h for h in heads if cfg.node(h).kind == "for"]) \
+                    and (wst_starts := [d for h in h0 for (d, l) in cfg.succ[h] if l == "T"]) \
+                    and not (set(h0) & cfg.reach(wst_starts, removed=fa.nodes(c))):
+                # a walk over a copy of the queue, oldest first, in which every key visited is evicted before the next one is
+                # looked at: the key in hand is always the least recently used one still queued
                 left.append(c)
         ck.ob("C06.R3", fa.key(wst, "evict-lru-end"), bool(left),
               "the loop evicts queue.popleft() (least recently used end)" if left else
